@@ -52,6 +52,11 @@ type WSCase struct {
 	Compress bool          `json:"compress,omitempty"` // permessage-deflate negotiated, both directions compressed
 	Track    bool          `json:"track,omitempty"`    // C11: ownership-tracking allocators instead of the real pools
 	TLS      bool          `json:"tls,omitempty"`      // wss: TLS listener (llib, transformed), crypto/tls clients
+	// C15 end to end: the serving engine's ReadLimit (0: default, 64 MiB); UpDefault leaves
+	// Upgrader.Engine at its default, so that the connection must take its engine - and with
+	// it the limit - from the connection it was upgraded on (poller-driven paths only)
+	ReadLimit int          `json:"read_limit,omitempty"`
+	UpDefault bool         `json:"up_default,omitempty"`
 	Conns    []WSConnPlan  `json:"conns"`
 }
 
@@ -93,6 +98,29 @@ func genWSCase(r *simrt.Rand, tier string) *WSCase {
 			p.Piece = 7 // one TLS record per piece
 		}
 		c.Conns = append(c.Conns, p)
+	}
+	return c
+}
+
+// genWSLimitCase is the end-to-end part of C15: the read limit of the serving engine on
+// every upgrade path.
+func genWSLimitCase(r *simrt.Rand, tier string) *WSCase {
+	c := genWSCase(r, tier)
+	c.IOMod = r.PickS("nonblocking", "nonblocking", "blocking", "std")
+	if c.IOMod == "std" {
+		c.TLS = false
+	}
+	// (larger than everything a compliant client of these plans ever has in flight unparsed:
+	// five messages of at most 500 bytes)
+	c.ReadLimit = 4096
+	c.UpDefault = c.IOMod == "nonblocking" && r.Bool(0.5)
+	for i := range c.Conns {
+		if r.Bool(0.7) {
+			c.Conns[i].End = "overlimit"
+		}
+		if c.Conns[i].End == "badframe" {
+			c.Conns[i].End = ""
+		}
 	}
 	return c
 }
@@ -233,6 +261,16 @@ func wsPayload(id string, n int) []byte {
 
 func runWS(t *testing.T, ci interface{}, trace bool) *common.Outcome {
 	return runWSAs(t, ci, trace, "C14")
+}
+
+// runWSLimit runs a case of the end-to-end part of C15: only the read limit is judged.
+func runWSLimit(t *testing.T, ci interface{}, trace bool) *common.Outcome {
+	o := runWSCase(t, ci.(*WSCase), trace)
+	if o.V != nil && o.V.Oracle != "read-limit-not-enforced" {
+		o.Probe("other_property_oracle_fired:" + o.V.Oracle)
+		o.V = nil
+	}
+	return o
 }
 
 func runWSAs(t *testing.T, ci interface{}, trace bool, prop string) *common.Outcome {
@@ -396,7 +434,12 @@ func runWSCase(t *testing.T, c *WSCase, trace bool) *common.Outcome {
 		if c.FrameMax == 0 {
 			eng.MaxWebsocketFramePayloadSize = 1 << 20
 		}
-		u.Engine = eng
+		if c.ReadLimit > 0 {
+			eng.ReadLimit = c.ReadLimit
+		}
+		if !c.UpDefault {
+			u.Engine = eng
+		}
 		if err := eng.Start(); err != nil {
 			o.Infra = "engine start: " + err.Error()
 			return
@@ -560,6 +603,23 @@ func runWSCase(t *testing.T, c *WSCase, trace bool) *common.Outcome {
 					// fail the connection (RFC 6455 section 5.2), on every upgrade path.
 					simrt.WaitStuck("writers", 2*time.Second, func() bool { return cs.writersDone >= len(plan.Writers) && len(cs.gotMsgs) >= len(plan.Msgs) })
 					send(stream.EncodeFrame(stream.Frame{Fin: true, Op: 11, Masked: true, Payload: []byte("x")}, [4]byte{9, 9, 9, 9}))
+				case "overlimit":
+					// after everything else: the beginning of one frame that is longer than the read
+					// limit (and allowed by the message limit), in pieces. "Buffered unparsed input
+					// never exceeds the read limit": the endpoint has to give up, it cannot wait for
+					// the rest.
+					simrt.WaitStuck("writers", 2*time.Second, func() bool { return cs.writersDone >= len(plan.Writers) && len(cs.gotMsgs) >= len(plan.Msgs) })
+					hdr := []byte{0x82, 0x80 | 127, 0, 0, 0, 0, 0, 0, 0, 0, 1, 2, 3, 4}
+					binary.BigEndian.PutUint64(hdr[2:10], uint64(4*c.ReadLimit))
+					if !cs.p.write(hdr, 100000) {
+						return
+					}
+					for sent := 0; sent < 3*c.ReadLimit && !cs.eof; sent += 1024 {
+						if !cs.p.write(bytes.Repeat([]byte{'x'}, 1024), 100000) {
+							break
+						}
+						simrt.Yield()
+					}
 				case "reset":
 					simrt.WaitStuck("reset-point", 10*time.Millisecond, func() bool { return len(cs.gotMsgs) >= (len(plan.Msgs)+1)/2 })
 					closeRace = closeRace || pendingWriters > 0 || cs.inCB > 0
@@ -607,6 +667,14 @@ func runWSCase(t *testing.T, c *WSCase, trace bool) *common.Outcome {
 			}
 			if !ended && len(cs.gotMsgs) != len(cs.plan.Msgs) {
 				fail("message-lost", class, "connection %d: %d messages sent, %d delivered by quiescence; log: %v", i, len(cs.plan.Msgs), len(cs.gotMsgs), ev)
+				return
+			}
+			if cs.plan.End == "overlimit" && !cs.eof {
+				cls := class
+				if c.TLS {
+					cls += "/tls"
+				}
+				fail("read-limit-not-enforced", cls, "connection %d: the client sent the first %d bytes of a frame that declares %d bytes; the serving engine's ReadLimit is %d, but the connection is still open at quiescence: the input is being buffered beyond the limit; log: %v", i, 3*c.ReadLimit, 4*c.ReadLimit, c.ReadLimit, ev)
 				return
 			}
 			if cs.plan.End == "badframe" && !cs.eof {
